@@ -19,8 +19,7 @@ chk('C01', 'model_checking',
     'values outside the alphabets (ramps, alternating noise, the listed scale members, two seeded fields per run) and mixed-layout '
     'operands (1-pol with 2-pol) are not explored; depth 3 over the core alphabet is thorough-only and from 36 of the 108 base leaves; '
     'depth 2 from the extra leaves uses dtype-preserving prefixes only; inside programs the neutral elements appear in their int '
-    'spelling and as sum([x]) only (0 as operand of * and 1 as operand of + - are ordinary scalars); the thorough tier with the neutral '
-    'ops was started but not run to completion; numpy integers as slice indices and ndarrays / numpy scalars on '
+    'spelling and as sum([x]) only (0 as operand of * and 1 as operand of + - are ordinary scalars); numpy integers as slice indices and ndarrays / numpy scalars on '
     'the LEFT are outside the property text. For * and the transforms only the contract is stated, so the model adopts the implementation '
     'values after checking it. Boolean samples are outside the quantified dtypes: a numpy TypeError is accepted and the total-field '
     'clause is skipped on all-boolean operands; float16 samples beyond the dtype range are not compared. Not asserted (statement silent): '
